@@ -43,14 +43,23 @@ func verifDumpFile(name string) (d verifDump, openErr error) {
 
 // C17 E-tier: a library-written file cut at every length L < size (forked): Open/Walk/Read/Attributes either
 // return an error or exactly what the intact file gives; never a silently shorter tree, never a panic.
-func verifTruncateScript(ver uint8, lo, hi int) {
+func verifTruncateScript(ver uint8, lo, hi int) { verifTruncateScriptOpt(ver, lo, hi, false) }
+
+// chunked: the file ends with a chunked dataset's chunk index (written by the last Write); lo/hi are then relative to the end
+func verifTruncateScriptOpt(ver uint8, lo, hi int, chunked bool) {
 	vrt.LoopBound(6000)
 	fw, err := CreateForWrite("c17.h5", CreateTruncate, WithSuperblockVersion(ver))
 	vrt.AssertNoErr(err, "create-ok")
-	a, err := fw.CreateDataset("/a", Int32, []uint64{2})
-	vrt.AssertNoErr(err, "create-a-ok")
-	vrt.AssertNoErr(a.Write([]int32{vrt.I32(), vrt.I32()}), "write-a-ok")
-	vrt.AssertNoErr(a.WriteAttribute("k", int32(5)), "attr-ok")
+	if chunked {
+		c, err := fw.CreateDataset("/a", Int32, []uint64{4}, WithChunkDims([]uint64{2}))
+		vrt.AssertNoErr(err, "create-a-ok")
+		vrt.AssertNoErr(c.Write([]int32{vrt.I32(), vrt.I32(), vrt.I32(), vrt.I32()}), "write-a-ok")
+	} else {
+		a, err := fw.CreateDataset("/a", Int32, []uint64{2})
+		vrt.AssertNoErr(err, "create-a-ok")
+		vrt.AssertNoErr(a.Write([]int32{vrt.I32(), vrt.I32()}), "write-a-ok")
+		vrt.AssertNoErr(a.WriteAttribute("k", int32(5)), "attr-ok")
+	}
 	vrt.AssertNoErr(fw.Close(), "close-ok")
 	intact, err := verifDumpFile("c17.h5")
 	vrt.AssertNoErr(err, "intact-open-ok")
@@ -58,6 +67,12 @@ func verifTruncateScript(ver uint8, lo, hi int) {
 	st, err := os.Stat("c17.h5")
 	vrt.AssertNoErr(err, "stat-ok")
 	size := int(st.Size())
+	if chunked {
+		lo, hi = size-hi, size-lo // counted from the end of the file
+		if lo < 0 {
+			lo = 0
+		}
+	}
 	if hi > size {
 		hi = size
 	}
@@ -86,3 +101,6 @@ func VerifH_C17_api_truncate_v2_head() { verifTruncateScript(2, 0, 160) }
 func VerifH_C17_api_truncate_v2_tail() { verifTruncateScript(2, 2000, 100000) }
 func VerifH_C17_api_truncate_v2_mid_thorough() { verifTruncateScript(2, 160, 2000) }
 func VerifH_C17_api_truncate_v0_thorough() { verifTruncateScript(0, 0, 100000) }
+
+// the last 130 bytes of a file that ends with a chunk index node
+func VerifH_C17_api_truncate_chunk_index_tail() { verifTruncateScriptOpt(2, 0, 130, true) }
